@@ -432,3 +432,10 @@ _extend('C14',
         'a whole script (dumps of all live models and parameter_names after every step) agrees with itself and passes every clause of ok_steps - edited '
         'model as stated, all other live models unchanged, copy / save-load equal to the source, parameter_names - PARTIAL in that "every dump is '
         'consistent" (acyclic_b, nodup_params along the script) is a decidable hypothesis of the theorem, not derived.')
+_extend('C14',
+        ' SCRIPT LEVEL COMPLETED (C14_model_script_ok, C14_model_case_ok, C14_consistent_along_derived, C14_step_consistent, C14_reachable_consistent, '
+        'C14_acyclic_b_iff, C14_consistent_b_sound / _complete): the decidable consistent_b is equivalent to the Prop-level invariants (closed, one edge '
+        'per pair given uniq, distinct parameters, acyclic), the model\'s step preserves it outside the hazards, so the model\'s own record of ANY '
+        'script without input hazards passes ok_steps and the whole case passes agree and ok; the input-hazard guard (a node among its own parents, a '
+        'parent listed twice, observed data for a name that is no node) is shown necessary by three computed scripts (C14_input_hazard_necessary) - '
+        'the second of them is the real-code finding repeated-positional-parent recorded under C03.')
